@@ -284,3 +284,7 @@ package treebidimap
 //@     invariant Cur(iterator) < m.forwardMap.size || m.forwardMap.size == 0
 //@     invariant 0 <= Cur(iterator) && Cur(iterator) < m.forwardMap.size ==> Fwd(newMap, fst(f(FK(m, Cur(iterator)), FV(m, Cur(iterator)))))
 //@     decreases m.forwardMap.size - Cur(iterator)
+
+//@ func New
+//@   modifies nothing
+//@   ensures [C10 C15 C17] fresh(result) && Inv(result) && result.forwardMap.size == 0
